@@ -114,21 +114,41 @@ Proof.
       * exact Hnd.
 Qed.
 
+Lemma wf_parts : forall p, wf_pkg p = true ->
+  forallb ce_ok (const_env p) = true
+  /\ nodup_s (map ce_name (named_entries (const_env p))) = true
+  /\ nodup_s (map fst (p_types p)) = true
+  /\ forallb (fun e => negb (String.eqb (ce_name e) "") && negb (mem_s (ce_name e) (map fst (p_types p))))
+             (const_env p) = true.
+Proof.
+  intros p Hwf. unfold wf_pkg in Hwf.
+  apply andb_true_iff in Hwf. destruct Hwf as [Hwf H4].
+  apply andb_true_iff in Hwf. destruct Hwf as [Hwf H3].
+  apply andb_true_iff in Hwf. destruct Hwf as [H1 H2].
+  repeat split; assumption.
+Qed.
+
 Lemma wf_nodup : forall p, wf_pkg p = true ->
   NoDup (map ce_name (named_entries (const_env p))).
 Proof.
-  intros p Hwf. unfold wf_pkg in Hwf.
-  apply andb_true_iff in Hwf. destruct Hwf as [Hwf _].
-  apply andb_true_iff in Hwf. destruct Hwf as [_ Hnd].
-  apply nodup_s_NoDup. exact Hnd.
+  intros p Hwf. apply nodup_s_NoDup. exact (proj1 (proj2 (wf_parts p Hwf))).
 Qed.
 
 Lemma wf_ok : forall p e, wf_pkg p = true -> In e (const_env p) -> ce_ok e = true.
 Proof.
-  intros p e Hwf Hin. unfold wf_pkg in Hwf.
-  apply andb_true_iff in Hwf. destruct Hwf as [Hwf _].
-  apply andb_true_iff in Hwf. destruct Hwf as [Hok _].
+  intros p e Hwf Hin. pose proof (proj1 (wf_parts p Hwf)) as Hok.
   rewrite forallb_forall in Hok. apply Hok. exact Hin.
+Qed.
+
+(* a constant is not named like a type, and not "" *)
+Lemma wf_names : forall p e, wf_pkg p = true -> In e (const_env p) ->
+  ce_name e <> "" /\ ~ In (ce_name e) (map fst (p_types p)).
+Proof.
+  intros p e Hwf Hin. pose proof (proj2 (proj2 (proj2 (wf_parts p Hwf)))) as Hn.
+  rewrite forallb_forall in Hn. specialize (Hn e Hin).
+  apply andb_true_iff in Hn. destruct Hn as [H1 H2]. split.
+  - apply negb_true_iff in H1. apply String.eqb_neq. exact H1.
+  - apply negb_true_iff in H2. intros Hm. apply mem_s_In in Hm. congruence.
 Qed.
 
 (* ---------------------------------------------------------- decl_of ------- *)
@@ -191,14 +211,15 @@ Definition tyname (ty : vtype) : string :=
   match ty with TIdent t => t | _ => "" end.
 
 (* what the walk needs to know about an entry: looking its name up in the
-   final environment finds it, and it is not implicitly typed *)
-Definition good (E : cenv_t) (e : centry) : Prop :=
-  ce_name e <> "_" -> lookup_c (ce_name e) E = Some e /\ ce_implicit e = false.
+   final environment finds it, and it is not an implicitly typed constant OF TYPE T *)
+Definition good (T : string) (E : cenv_t) (e : centry) : Prop :=
+  ce_name e <> "_" ->
+  lookup_c (ce_name e) E = Some e /\ (ce_implicit e = true -> ctype_is T (ce_type e) = false).
 
 Lemma spec_collect : forall p E T k,
   T <> "" -> kind_of_type p T = Some k ->
   forall env iota ty names exprs,
-  Forall (good E) (spec_entries p env iota ty names exprs) ->
+  Forall (good T E) (spec_entries p env iota ty names exprs) ->
   map (mkv k) (decl_of T (spec_entries p env iota ty names exprs)) =
   if String.eqb (tyname ty) T then names_values p E names else [].
 Proof.
@@ -216,14 +237,17 @@ Proof.
       rewrite decl_of_cons. cbn [ce_name ce_type]. rewrite Hn.
       cbn [negb andb].
       assert (Hnb : n <> "_") by (apply String.eqb_neq; exact Hn).
-      unfold good in Hx. cbn [ce_name ce_implicit] in Hx.
+      unfold good in Hx. cbn [ce_name ce_implicit ce_type] in Hx.
       destruct (Hx Hnb) as [Hlk Himpl].
       destruct ty as [|t|fk]; cbn [ctype_of tyname] in *.
       * assert (Hne : String.eqb "" T = false).
         { apply String.eqb_neq. congruence. }
         rewrite Hne in *.
-        destruct (etype env (hd (ELit 0) exprs)); try discriminate.
-        cbn [ctype_is]. exact IH.
+        destruct (etype env (hd (ELit 0) exprs)) as [|t|fk] eqn:Het.
+        -- cbn [ctype_is]. exact IH.
+        -- (* implicitly typed: by the guard not of type T *)
+           rewrite (Himpl eq_refl). exact IH.
+        -- cbn [ctype_is]. exact IH.
       * cbn [ctype_is]. destruct (String.eqb t T) eqn:HtT.
         -- apply String.eqb_eq in HtT. subst t.
            cbn [map]. rewrite IH. f_equal.
@@ -244,7 +268,7 @@ Lemma block_collect : forall p E T k,
   forall b env iota last typ,
   typ = tyname (fst last) ->
   Forall typed_has_vals b ->
-  Forall (good E) (block_entries p env iota last b) ->
+  Forall (good T E) (block_entries p env iota last b) ->
   collect_block p E T typ b = map (mkv k) (decl_of T (block_entries p env iota last b)).
 Proof.
   intros p E T k HT Hk b.
@@ -283,7 +307,7 @@ Lemma blocks_collect : forall p E T k,
   T <> "" -> kind_of_type p T = Some k ->
   forall bs env,
   Forall (Forall typed_has_vals) bs ->
-  Forall (good E) (blocks_contrib p env bs) ->
+  Forall (good T E) (blocks_contrib p env bs) ->
   flat_map (collect_block p E T "") bs = map (mkv k) (decl_of T (blocks_contrib p env bs)).
 Proof.
   intros p E T k HT Hk bs.
@@ -327,26 +351,27 @@ Proof.
   apply (block_shape_typed_has_vals b true). exact Hs.
 Qed.
 
-Lemma const_env_good : forall p,
-  wf_pkg p = true -> no_implicit p = true -> Forall (good (const_env p)) (const_env p).
+Lemma const_env_good : forall p T,
+  wf_pkg p = true -> no_implicit p T = true -> Forall (good T (const_env p)) (const_env p).
 Proof.
-  intros p Hwf Hni. apply Forall_forall. intros e Hin Hnb. split.
+  intros p T Hwf Hni. apply Forall_forall. intros e Hin Hnb. split.
   - apply lookup_unique; [apply wf_nodup; exact Hwf | exact Hin | exact Hnb].
-  - unfold no_implicit in Hni. rewrite forallb_forall in Hni.
-    specialize (Hni e Hin). apply negb_true_iff in Hni. exact Hni.
+  - intros Himp. unfold no_implicit in Hni. rewrite forallb_forall in Hni.
+    specialize (Hni e Hin). rewrite Himp in Hni. cbn [andb] in Hni.
+    apply negb_true_iff in Hni. exact Hni.
 Qed.
 
 (* ================================================================ results == *)
 
 Theorem collect_eq : forall p T k,
-  wf_pkg p = true -> shape_ok p = true -> no_implicit p = true ->
+  wf_pkg p = true -> shape_ok p = true -> no_implicit p T = true ->
   T <> "" -> kind_of_type p T = Some k ->
   collect p T = map (mkv k) (declared T p).
 Proof.
   intros p T k Hwf Hshape Hni HT Hk.
   unfold collect. rewrite flat_map_concat. fold (all_blocks p).
   rewrite declared_decl_of.
-  pose proof (const_env_good p Hwf Hni) as Hg.
+  pose proof (const_env_good p T Hwf Hni) as Hg.
   rewrite (const_env_contrib p) in Hg at 2.
   rewrite (const_env_contrib p) at 2.
   apply blocks_collect.
